@@ -88,10 +88,26 @@ def bus_history(ctx, simpy, uros, msgs, rng, k):
         m.data[ID_FIELD[typ]][0] = mid
         return m, mid
 
-    def do_publish(topic, wrong=False):
-        if wrong:
+    # publishers that keep ONE message object per topic and fill it in before publishing (what Simulator and
+    # AttitudeEstimator do); some of them fill it in a while before they publish: until then nobody may see the new content
+    reuse = {t: types[ttype[t]]() for t in topics if rng.random() < 0.5}
+
+    def prepare(topic):
+        m = reuse[topic]
+        counter["n"] += 1
+        mid = float(counter["n"])
+        m.data["time"] = now()
+        m.data[ID_FIELD[ttype[topic]]][0] = mid
+        return m, mid
+
+    def do_publish(topic, wrong=False, prepared=None):
+        if prepared is not None:
+            m, mid = prepared
+        elif wrong:
             other = [x for x in types if x != ttype[topic]][0]
             m, mid = make_msg(topic, other)
+        elif topic in reuse:
+            m, mid = prepare(topic)
         else:
             m, mid = make_msg(topic)
         H.append(("call", topic, mid, now(), wrong))
@@ -186,6 +202,13 @@ def bus_history(ctx, simpy, uros, msgs, rng, k):
             burst = 1 if r < 0.8 else int(rng.integers(2, 5))
             for _ in range(burst):
                 do_publish(topic, wrong=rng.random() < 0.05)
+            if topic in reuse and rng.random() < 0.5:
+                # fill the held message in now, publish it later
+                pre = prepare(topic)
+                H.append(("prepared", topic, pre[1], now(), None))
+                yield simpy.Timeout(core, per * float(rng.uniform(0.2, 0.9)))
+                do_publish(topic, prepared=pre)
+                ctx.count("messages_filled_in_before_publishing")
             yield simpy.Timeout(core, per if rng.random() < 0.9 else 0.0)
 
     for t in driven:
@@ -234,7 +257,7 @@ def bus_history(ctx, simpy, uros, msgs, rng, k):
     ctx.tally("parameter_broadcasts", len(sets))
     check_log(ctx, logger, H, sets, ttype, tf, case)
     ctx.distinct(np.array([[ntop, len(nested), tf, base, sum(len(v) for v in subs_of.values()), len(H)]], dtype=float))
-    kinds = "".join({"call": "c", "ret": "r", "deliver": "d", "params_seen": "p", "set_param": "s"}[h[0]] for h in H[:300])
+    kinds = "".join({"call": "c", "ret": "r", "deliver": "d", "params_seen": "p", "set_param": "s", "prepared": "w"}[h[0]] for h in H[:300])
     ctx.cell("interleavings", hash(kinds) & 0xFFFFFFFF)
     ctx.count("history_events", len(H))
     ctx.count("bus_histories")
